@@ -47,19 +47,16 @@ fn call_global_fusion_keeps_call_kind() {
     assert!(code[1].payload_size.to_u32() == idx, "the fused call addresses another global slot");
     assert!(code[1].contents == Some(Expr::Atom(SyntaxObject { ty: TokenType::Identifier(g) })));
     // ... and is a call of the SAME kind: a tail call stays a tail call (constant space), a checked call stays checked
-    let want = match call {
-        OpCode::FUNC => {
-            if prim {
-                OpCode::CALLPRIMITIVE
-            } else {
-                OpCode::CALLGLOBAL
-            }
-        }
-        OpCode::FUNCNOARITY => OpCode::CALLGLOBALNOARITY,
-        OpCode::TAILCALL => OpCode::CALLGLOBALTAIL,
-        _ => OpCode::CALLGLOBALTAILNOARITY,
+    // (CALLGLOBAL and CALLPRIMITIVE are executed by the same interpreter arm, likewise their tail forms: which of the two is
+    // chosen is an optimisation, not part of the contract)
+    let got = code[1].op_code;
+    let ok = match call {
+        OpCode::FUNC => got == OpCode::CALLGLOBAL || got == OpCode::CALLPRIMITIVE,
+        OpCode::FUNCNOARITY => got == OpCode::CALLGLOBALNOARITY,
+        OpCode::TAILCALL => got == OpCode::CALLGLOBALTAIL || got == OpCode::CALLPRIMITIVETAIL,
+        _ => got == OpCode::CALLGLOBALTAILNOARITY,
     };
-    assert!(code[1].op_code == want, "the fused global call is of another kind than the call it replaces (tail <-> non-tail, checked <-> unchecked)");
+    assert!(ok, "the fused global call is of another kind than the call it replaces (tail <-> non-tail, checked <-> unchecked)");
 }
 
 /// a PUSH that is not followed by a call, or whose operand is not an identifier, is left alone
